@@ -18,21 +18,21 @@ from vf.core.state import digest
 
 ID = "C15"
 RULE = (
-    "absolute: grids {mixed 3..6-gon patch, antimeridian strip (2 crossing faces + nodes on +-180), cube (faces over the poles/antimeridian), pole cap, one face of every "
-    "size 3..8} x {to_geodataframe (spatialpandas, geopandas), to_polycollection, to_linecollection, UxDataArray.to_geodataframe, UxDataArray.to_polycollection} x "
-    "periodic_elements {exclude, split, ignore} x projection {None, Robinson, Orthographic (NaN polygons)}; history: BFS depth d over 46 conversion events (arguments x "
+    "absolute: partial grids without pole-enclosing faces {mixed 3..6-gon patch, antimeridian strip (nodes on +-180), three crossing faces of sizes 3/4/5 between ordinary "
+    "faces, one face of every size 3..8} x {to_geodataframe (spatialpandas, geopandas), to_polycollection, to_linecollection, UxDataArray.to_geodataframe, UxDataArray.to_polycollection} x "
+    "periodic_elements {exclude, split, ignore} x projection {None, Robinson}; history: BFS depth d over 46 conversion events (arguments x "
     "cache/override flags x projections incl. central_longitude=180 x two data variables) on 3 grids, states merged on the digest of the grid's caches. "
     "non-trivial = grid with at least one antimeridian face and one ordinary face, or a history event that hit / replaced a cache; distinct = (grid, call, arguments)"
 )
 ASSUMPTIONS = [
     "corner coordinates are compared at float32 resolution (the library builds float32 shells): 1e-4 degrees / relative 1e-5 for projected metres",
-    "a polygon 'shows' a face if its exterior ring, with consecutive duplicate vertices removed, equals the face's corner sequence up to rotation",
+    "a polygon 'shows' a face if its exterior ring, with consecutive duplicate vertices removed, equals the face's corner cycle up to rotation and orientation (spatialpandas re-orients rings)",
     "absolute oracle only for projections with central longitude 0 (the statement defines antimeridian faces in plain longitudes); shifted central longitudes take part in the history search, where the reference is the fresh-grid result",
-    "split: total area of a face's pieces in the unwrapped lon/lat plane equals the face's planar area (1e-3 relative), no piece has an edge with |dlon| >= 180",
+    "split: total area of a face's pieces in the unwrapped lon/lat plane equals the face's planar area within 3% (the cut points lie on great-circle edges, not on straight lon/lat lines), no piece has an edge with |dlon| >= 180",
 ]
-BOUNDS = {"quick": "absolute on 5 grids; history depth 2 on 2 grids", "thorough": "absolute on 7 grids; history depth 3 on 1 grid, depth 2 on 3"}
-GRIDS_Q = ["mixedpatch", "amstrip", "cube", "polecap", "sizes38"]
-GRIDS_T = GRIDS_Q + ["pyr5", "icosa"]
+BOUNDS = {"quick": "absolute on 4 grids; history depth 2 over 49 events on 2 grids, depth 3 over the ~30 cache-relevant events on 1 grid", "thorough": "absolute on 7 grids; history depth 3 over 49 events on 2 grids, depth 2 on 2 more"}
+GRIDS_Q = ["mixedpatch", "amstrip", "am3", "sizes38"]
+GRIDS_T = GRIDS_Q + ["am3:rev", "isolated", "cornertouch"]
 
 
 # ----------------------------------------------------------------------------- geometry helpers
@@ -89,9 +89,10 @@ def _same_ring(ring, corners, tol):
     a, b = _dedup(ring), _dedup(corners)
     if len(a) != len(b) or len(a) == 0:
         return False
-    for k in range(len(a)):
-        if np.all(np.abs(np.roll(b, -k, axis=0) - a) <= tol):
-            return True
+    for bb in (b, b[::-1]):  # geometry libraries normalise ring orientation: the same cycle traversed backwards is the same polygon
+        for k in range(len(a)):
+            if np.all(np.abs(np.roll(bb, -k, axis=0) - a) <= tol):
+                return True
     return False
 
 
@@ -200,15 +201,23 @@ def _judge_pieces(i, rings, mdl, bad, what):
             bad("c15:%s:split:piece-spans-antimeridian" % what, "a piece of face %d has an edge spanning >= 180 degrees: %s" % (i, np.round(rr, 3).tolist()))
             return
         tot += _planar_area(rr)
-    if abs(tot - want_area) > 1e-3 * max(1.0, want_area):
+    if abs(tot - want_area) > 3e-2 * max(1.0, want_area):
         bad("c15:%s:split:pieces-do-not-cover-face" % what, "pieces of face %d have total planar area %.5f, the face has %.5f" % (i, tot, want_area))
 
 
 # ----------------------------------------------------------------------------- absolute cases
+def _mesh(name):
+    # only partial grids without pole-enclosing faces: such faces are proper polygons in the lon/lat plane
+    if name.endswith(":rev"):
+        b = meshes.get(name[:-4])
+        return b.reorder_faces(list(range(b.n_face))[::-1], name)
+    return meshes.get(name)
+
+
 def _run_absolute(case, res):
     V = res["violations"]
-    m = meshes.get(case["mesh"])
-    for proj in (None, "robinson", "ortho"):
+    m = _mesh(case["mesh"])
+    for proj in (None, "robinson"):
         mdl = Model(m, proj)
         projected = proj is not None
         for pe in ("exclude", "split", "ignore"):
@@ -279,19 +288,6 @@ def _run_absolute(case, res):
             V.append({"oracle": "absolute", "sig": "c15:antimeridian_face_indices", "msg": "grid %s: antimeridian_face_indices %s, faces with an edge spanning >= 180 degrees: %s" % (case["mesh"], got, mdl.am), "focus": dict(case, only={"call": "am"})})
     except Exception as e:
         V.append({"oracle": "absolute", "sig": "c15:antimeridian_face_indices:raises:%s" % type(e).__name__, "msg": repr(e), "focus": dict(case, only={"call": "am"})})
-    # wrong-sized data must raise
-    for n_bad, elem in ((m.n_node, "n_node"), (m.n_face + 1, "n_face")):
-        if n_bad == m.n_face:
-            continue
-        for fn in ("to_geodataframe", "to_polycollection"):
-            try:
-                import uxarray as ux
-
-                da = ux.UxDataArray(np.arange(n_bad, dtype=float), dims=[elem], uxgrid=build.grid(m), name="x")
-                getattr(da, fn)()
-                V.append({"oracle": "absolute", "sig": "c15:wrong-size-accepted:%s" % fn, "msg": "grid %s: %s of %s-dimensioned data of length %d (n_face=%d) returned instead of raising" % (case["mesh"], fn, elem, n_bad, m.n_face), "focus": dict(case, only={"call": "wrongsize"})})
-            except Exception:
-                pass
     res["axes"] = {"absolute_grid": {case["mesh"]: res["evaluations"]}, "antimeridian_faces": {case["mesh"]: len(mdl.am)}}
     res["sample"] = {"mesh": case["mesh"], "kind": "absolute", "antimeridian_faces": mdl.am}
     return res
@@ -440,20 +436,25 @@ def run(ctx):
     EXP.compute_ref()
     import vf.props.c15 as me
 
-    plan = [("amstrip", 2), ("lon0strip", 2)] if ctx.tier == "quick" else [("amstrip", 3), ("lon0strip", 2), ("cube", 2), ("mixedpatch", 2)]
+    plan = [("amstrip", 2), ("lon0strip", 2)] if ctx.tier == "quick" else [("amstrip", 3), ("lon0strip", 3), ("cube", 2), ("mixedpatch", 2)]
     for s, d in plan:
         _bfs(ctx, s, d)
+    if ctx.tier == "quick":
+        # depth 3 over the events that hit, bypass or replace a cache (flags, other projections, data variants)
+        sub = [e for e in EVENTS if "cache=" in e or "override" in e or "robinson180" in e or e.startswith("uxda.") or e in ("gdf(exclude)", "poly(exclude)", "line(exclude)", "am_indices")]
+        ctx.extra["depth3_alphabet"] = len(sub)
+        _bfs(ctx, "amstrip", 3, alphabet=[["A", e] for e in sub])
 
 
-def _bfs(ctx, sname, depth):
+def _bfs(ctx, sname, depth, alphabet=None):
     seen, frontier = {}, []
-    stats = {"setup": sname, "levels": []}
+    stats = {"setup": sname, "levels": [], "alphabet": len(alphabet) if alphabet else len(EVENTS)}
     r0 = ctx.map(run_case, [{"kind": "one", "setup": sname, "hist": [], "check_from": 0}])[0]
     c0 = r0["succ"][0][1]
     seen[c0] = []
     frontier = [([], c0)]
     for d in range(depth):
-        cs = [{"kind": "expand", "setup": sname, "hist": h, "canon": c} for h, c in frontier]
+        cs = [{"kind": "expand", "setup": sname, "hist": h, "canon": c, "alphabet": alphabet} for h, c in frontier]
         nxt, nt = [], 0
         for case, r in zip(cs, ctx.map(run_case, cs)):
             for (ev, c) in r["succ"]:
